@@ -339,6 +339,20 @@ pub mod fastq {
         }
     }
 
+    /// stepping over a validated, terminated record keeps byte and line coordinates true
+    proof fn lemma_advance(f: Seq<u8>, a: int, b: Seq<u8>, bp: BufferPosition)
+        requires 0 <= a, a + b.len() <= f.len(), b == f.subrange(a, a + b.len()), bp.valid(b), bp.pos.1 < b.len(), f.len() < 0x4000_0000_0000_0000
+        ensures true_line(f, a + bp.pos.1 + 1) == true_line(f, a + bp.pos.0) + 4,
+                bp.pos.0 <= bp.pos.1, a + bp.pos.1 + 1 <= f.len(),
+                true_line(f, a + bp.pos.1 + 1) + 4 <= u64::MAX,
+    {
+        let s = bp.pos.0 as int;
+        lemma_chain_bounds(b, s);
+        lemma_group_lift(f, a, b, s);
+        lemma_group_lines(f, a + s);
+        lemma_count_lf_mono(f, 0, a + bp.pos.1 + 1);
+    }
+
     /// a terminated group spans exactly four lines
     proof fn lemma_group_lines(f: Seq<u8>, p: int)
         requires 0 <= p <= f.len(), c4(f, p) < f.len()
@@ -569,7 +583,7 @@ pub mod fastq {
                     Some(id_of(trim(self.b().subrange(self.buf_pos.pos.0 + 1, self.buf_pos.seq - 1))))
                 } else { None }),
 //@body_start
-        broadcast use lemma_split_cut;
+        broadcast use lemma_split_cut, lemma_split_cut2;
 //@closure 0 params="b: &u8" ret="(r: bool)"
             ensures r == (*b == 32u8)
 //@end
@@ -649,6 +663,16 @@ pub mod fastq {
                 State::Finished => self.state != State::New ==> self.filled(),
             }
         &&& (self.state != State::Finished ==> self.coords())
+    }
+    /// cut point inside next(): the reader is about to look for the group at o's cursor
+    spec fn ready(&self, o: &Self) -> bool {
+        &&& self.wf0() && self.f() == o.f() && self.state == State::Parsing && self.filled()
+        &&& self.buf_pos.pos.0 <= self.b().len()
+        &&& self.gpos() == o.cursor() && self.position.byte == self.gpos() && self.coords()
+        &&& self.position.line + 4 <= u64::MAX
+        &&& (self.incomplete_pos matches Some(k) ==> stuck(self.b(), self.buf_pos, rp(k)))
+        &&& self.buf_reader.errs() == o.buf_reader.errs()
+        &&& (o.state == State::New ==> self.base() == 0 && self.gpos() == 0)
     }
     /// a failed first fill left bytes in the buffer of a reader that is still `New`
     spec fn poisoned(&self) -> bool { self.state == State::New && self.b().len() > 0 }
@@ -789,14 +813,12 @@ pub mod fastq {
         proof {
             lemma_count_lf_mono(self.f(), 0, self.position.byte as int);
             if self.state == State::Parsing {
-                lemma_chain_bounds(self.b(), self.buf_pos.pos.0 as int);
-                lemma_group_lift(self.f(), self.base(), self.b(), self.buf_pos.pos.0 as int);
-                lemma_group_lines(self.f(), self.gpos());
-                lemma_count_lf_mono(self.f(), 0, self.base() + self.buf_pos.pos.1 + 1);
+                lemma_advance(self.f(), self.base(), self.b(), self.buf_pos);
             }
         }
 //@before /if self\.incomplete_pos\.is_none\(\)/
         proof {
+            assert(self.ready(old(self)));
             let (ff, a, bb, s) = (self.f(), self.base(), self.b(), self.buf_pos.pos.0 as int);
             lemma_chain_bounds(bb, s);
             if bb.len() > 0 && c4(bb, s) < bb.len() { lemma_group_lift(ff, a, bb, s); }
@@ -864,12 +886,162 @@ pub mod fastq {
 //@end
 }
 
+
+    /// `@ head LF seq LF + LF qual LF`
+    pub open spec fn fq_render(h: Seq<u8>, sq: Seq<u8>, q: Seq<u8>) -> Seq<u8> {
+        seq![64u8] + h + seq![10u8] + sq + seq![10u8, 43u8, 10u8] + q + seq![10u8]
+    }
+
+//@impl_open fastq::Record::head
+    /// offsets are those of a complete, validated record (always true for owned records)
+    spec fn rwf(&self) -> bool;
+    spec fn head_s(&self) -> Seq<u8>;
+    spec fn seq_s(&self) -> Seq<u8>;
+    spec fn qual_s(&self) -> Seq<u8>;
+//@sig fastq::Record::head ret=r tags=C13
+//@spec
+        requires self.rwf(),
+        ensures
+            [C13,C12|fastq.Record.head] r@ == self.head_s(),
+//@end
+//@sig fastq::Record::seq ret=r tags=C13
+//@spec
+        requires self.rwf(),
+        ensures
+            [C13,C12|fastq.Record.seq] r@ == self.seq_s(),
+//@end
+//@sig fastq::Record::qual ret=r tags=C13
+//@spec
+        requires self.rwf(),
+        ensures
+            [C13,C12|fastq.Record.qual] r@ == self.qual_s(),
+//@end
+
+}
+
 impl<'a> RefRecord<'a> {
-    spec fn rwf(&self) -> bool { self.buf_pos.valid(self.buffer@) }
     spec fn head_v(&self) -> Seq<u8> { g_head(self.buffer@, self.buf_pos.pos.0 as int) }
     spec fn seq_v(&self) -> Seq<u8> { g_seq(self.buffer@, self.buf_pos.pos.0 as int) }
     spec fn qual_v(&self) -> Seq<u8> { g_qual(self.buffer@, self.buf_pos.pos.0 as int) }
+    /// the record's bytes in the buffer, from '@' up to (not including) the last line's LF
+    spec fn raw_v(&self) -> Seq<u8> { self.buffer@.subrange(self.buf_pos.pos.0 as int, self.buf_pos.pos.1 as int) }
 }
+
+//@impl_open fastq::Record for RefRecord::head
+    spec fn rwf(&self) -> bool { self.buf_pos.valid(self.buffer@) }
+    spec fn head_s(&self) -> Seq<u8> { self.head_v() }
+    spec fn seq_s(&self) -> Seq<u8> { self.seq_v() }
+    spec fn qual_s(&self) -> Seq<u8> { self.qual_v() }
+//@fn fastq::Record for RefRecord::head ret=r tags=C13,C12,C06
+//@body_start
+        proof { lemma_chain_bounds(self.buffer@, self.buf_pos.pos.0 as int); lemma_nl_bounds(self.buffer@, self.buf_pos.pos.0 as int); }
+//@end
+//@fn fastq::Record for RefRecord::seq ret=r tags=C13,C12,C06
+//@body_start
+        proof { lemma_chain_bounds(self.buffer@, self.buf_pos.pos.0 as int); }
+//@end
+//@fn fastq::Record for RefRecord::qual ret=r tags=C13,C12,C06
+//@body_start
+        proof { lemma_chain_bounds(self.buffer@, self.buf_pos.pos.0 as int); }
+//@end
+}
+
+//@item fastq::OwnedRecord vis=keep
+
+//@impl_open fastq::Record for OwnedRecord::head
+    spec fn rwf(&self) -> bool { true }
+    spec fn head_s(&self) -> Seq<u8> { self.head@ }
+    spec fn seq_s(&self) -> Seq<u8> { self.seq@ }
+    spec fn qual_s(&self) -> Seq<u8> { self.qual@ }
+//@fn fastq::Record for OwnedRecord::head ret=r tags=C13
+//@end
+//@fn fastq::Record for OwnedRecord::seq ret=r tags=C13
+//@end
+//@fn fastq::Record for OwnedRecord::qual ret=r tags=C13
+//@end
+}
+
+    /// Shadow of `trait Record` without implementors: Verus fails to use closure specifications inside default
+    /// methods of a trait that has impls in the same crate (tool quirk, found by bisection); the default methods
+    /// are therefore verified here, for an arbitrary implementor of the required methods' contracts.
+trait RecordD {
+    spec fn rwf(&self) -> bool;
+    spec fn head_s(&self) -> Seq<u8>;
+    spec fn seq_s(&self) -> Seq<u8>;
+    spec fn qual_s(&self) -> Seq<u8>;
+//@sig fastq::Record::head ret=r tags=C13 as=fastq::RecordD::head
+//@spec
+        requires self.rwf(),
+        ensures
+            r@ == self.head_s(),
+//@end
+//@sig fastq::Record::seq ret=r tags=C13 as=fastq::RecordD::seq
+//@spec
+        requires self.rwf(),
+        ensures
+            r@ == self.seq_s(),
+//@end
+//@sig fastq::Record::qual ret=r tags=C13 as=fastq::RecordD::qual
+//@spec
+        requires self.rwf(),
+        ensures
+            r@ == self.qual_s(),
+//@end
+
+//@fn fastq::Record::id_bytes ret=r tags=C13,C06
+//@spec
+        requires self.rwf(),
+        ensures
+            [C13|fastq.Record.id_bytes] r@ == id_of(self.head_s()),
+//@body_start
+        broadcast use lemma_split_cut, lemma_split_cut2;
+//@closure 0 params="b: &u8" ret="(r: bool)"
+            ensures r == (*b == 32u8)
+//@end
+
+//@fn fastq::Record::write ret=r tags=C11
+//@spec
+        requires self.rwf(),
+        ensures
+            [C11|fastq.Record.write] r is Ok ==> writer.fin() == writer.written() + fq_render(self.head_s(), self.seq_s(), self.qual_s()),
+//@end
+}
+
+//@impl_open fastq::RefRecord::to_owned_record
+//@fn fastq::RefRecord::to_owned_record ret=r tags=C13,C04
+//@spec
+        requires self.rwf(),
+        ensures
+            [C13,C04|fastq.to_owned_record] r.head@ == self.head_v() && r.seq@ == self.seq_v() && r.qual@ == self.qual_v(),
+//@end
+
+//@fn fastq::RefRecord::write_unchanged ret=r tags=C11
+//@spec
+        requires self.rwf(),
+        ensures
+            [C11|fastq.write_unchanged] r is Ok ==> writer.fin() == writer.written() + self.raw_v() + seq![10u8],
+//@body_start
+        broadcast use io::resolve_law_b;
+        proof { lemma_chain_bounds(self.buffer@, self.buf_pos.pos.0 as int); }
+//@end
+}
+
+//@fn fastq::write_to ret=r tags=C11
+//@spec
+        ensures
+            [C11|fastq.write_to] r is Ok ==> writer.fin() == writer.written() + fq_render(head@, seq@, qual@),
+//@body_start
+        broadcast use io::resolve_law_b;
+//@end
+
+//@fn fastq::write_parts ret=r tags=C11
+//@spec
+        ensures
+            [C11|fastq.write_parts] r is Ok ==> writer.fin() == writer.written()
+            + fq_render(match desc { Some(d) => id@ + seq![32u8] + d@, None => id@ }, seq@, qual@),
+//@body_start
+        broadcast use io::resolve_law_b;
+//@end
 
     } // verus!
 }
